@@ -46,7 +46,9 @@ def render_line(i, l):
         return json.dumps({"file": "@FILE@", "linenr": 10 + i, "column": 3, "severity": l["sev"], "message": "msg %d" % i,
                            "addon": "fake", "errorId": "e%d" % i, "extra": ""})
     if k == "loc":
-        return json.dumps({"loc": [{"file": "@FILE@", "linenr": 10 + i, "column": 3, "info": "here"}], "severity": "error",
+        # two locations; the note of the primary (last) one contains TAB bytes - the separator of the inter-process encoding
+        return json.dumps({"loc": [{"file": "@FILE@", "linenr": 1, "column": 1, "info": "first"},
+                                   {"file": "@FILE@", "linenr": 10 + i, "column": 3, "info": "he\tre\t%d" % i}], "severity": "error",
                            "message": "msg %d" % i, "addon": "fake", "errorId": "e%d" % i, "extra": ""})
     if k == "unknown":
         return json.dumps({"file": "@FILE@", "linenr": 10 + i, "column": 3, "severity": "bogus", "message": "msg %d" % i,
@@ -90,7 +92,8 @@ def run_case(c):
     if c.get("rawlines"):
         lines = c["rawlines"]
     json.dump({"lines": lines, "exit": c["exit"]}, open(os.path.join(root, "case.json"), "w"))
-    args = ["-q", "--template=" + projgen.TEMPLATE, "--addon=fake.json", "--addon-python=" + os.path.realpath(__import__("sys").executable)]
+    args = ["-q", "--template=" + projgen.TEMPLATE, "--template-location=L|{file}|{line}|{column}|{info}", "--addon=fake.json",
+            "--addon-python=" + os.path.realpath(__import__("sys").executable)]
     if c["enable"] != "none":
         args.append("--enable=" + c["enable"])
     if c["suppress"]:
@@ -108,6 +111,13 @@ def run_case(c):
     raw = vlib.read_traces(tdir)
     shutil.rmtree(tdir, ignore_errors=True)
     fs = projgen.parse_findings(err)
+    # location notes (--template-location lines), the text as a list of byte values so that TLC compares it
+    notes = []
+    for l in err.splitlines():
+        if l.startswith("L|"):
+            parts = l.split("|", 4)
+            if len(parts) == 5 and parts[2].isdigit() and parts[3].isdigit():
+                notes.append({"line": int(parts[2]), "col": int(parts[3]), "codes": list(parts[4].encode("utf-8", "surrogateescape"))})
     # the line kinds logged while t.c was being checked (AddonLine events between CheckBegin(t.c) and the next CheckBegin of
     # the same thread)
     kinds = []
@@ -127,7 +137,7 @@ def run_case(c):
     obs = {"case": c, "signal": rc is None or rc < 0, "rc": -999 if rc is None else rc,
            "addonFindings": [{"id": f["id"], "line": f["line"], "col": f["col"], "sev": f["sev"], "msg": f["msg"]} for f in fs if f["id"].startswith("fake-")],
            "internalErrors": len([f for f in fs if f["id"] in ("internalError", "cppcheckError")]),
-           "summariesForwarded": got, "kinds": kinds,
+           "summariesForwarded": got, "kinds": kinds, "locNotes": notes,
            "other": [f["key"] for f in fs if not f["id"].startswith("fake-") and f["id"] not in ("internalError", "cppcheckError", "checkersReport")]}
     return obs, ("c34-" + vlib.digest(c), hdr, evs)
 
